@@ -436,8 +436,12 @@ func ruleOptZero(rule string) RuleFn {
 				continue
 			}
 			if hit, path := an.PathTo(fn, nil, an.IsInstr(z), g); hit != nil {
-				c.Bad(rule, cons, "a zero value can stand in for a dependency that has a provider whose failure is not 'missing dependencies': the optional tag hides an available dependency or a constructor error", z, an.BlockPath(c.P, path))
-				continue
+				// alternative shape: the search loop over c.storesToRoot() returns from inside as soon as a scope has
+				// providers, and the zero value follows the EXHAUSTED loop (every enclosing scope was seen empty)
+				if !zeroAfterExhaustedSearch(fn, z, pcalls, g) {
+					c.Bad(rule, cons, "a zero value can stand in for a dependency that has a provider whose failure is not 'missing dependencies': the optional tag hides an available dependency or a constructor error", z, an.BlockPath(c.P, path))
+					continue
+				}
 			}
 			c.OK(rule, cons, "under Optional and (no provider | errMissingDependencies)", z)
 		}
@@ -963,4 +967,57 @@ func noValueOnlyWithError(fn *ssa.Function, r *ssa.Return) bool {
 		return !provablyNonNil(fn, r, e, nil)
 	}})
 	return res.Found == nil && !res.Overflow
+}
+
+// zeroAfterExhaustedSearch: z lies behind the exhausted exit of the loop over
+// c.storesToRoot() that looks the providers up, and cannot be reached from a
+// provider call or from a "this scope has providers" edge except through the
+// gates (len==0 of the looked-up providers, errors.As(missing dependencies)).
+func zeroAfterExhaustedSearch(fn *ssa.Function, z ssa.Instruction, pcalls []ssa.CallInstruction, gates *an.Gates) bool {
+	var loop *rangeLoop
+	var lookups []*ssa.Call
+	for _, l := range rangeLoops(fn) {
+		if l.over != "p:c.storesToRoot()" {
+			continue
+		}
+		for b := range l.body {
+			for _, in := range b.Instrs {
+				if k, ok := in.(*ssa.Call); ok && k.Common().IsInvoke() && k.Common().Method.Name() == "getValueProviders" {
+					loop = l
+					lookups = append(lookups, k)
+				}
+			}
+		}
+	}
+	if loop == nil || loop.body[z.Block()] {
+		return false
+	}
+	// every path to z passes the exhausted exit (false edge of the loop test)
+	exit := an.Edge{From: loop.header, Succ: 1}
+	if hit, _ := an.PathTo(fn, nil, an.IsInstr(z), an.NewGates().AddEdges(exit)); hit != nil {
+		return false
+	}
+	// starts: provider calls and non-empty edges of the looked-up providers
+	var starts []ssa.Instruction
+	for _, p := range pcalls {
+		starts = append(starts, p)
+	}
+	for _, lk := range lookups {
+		for _, e := range an.EdgesWhere(fn, an.FactIs("(len("+an.Norm(lk)+") != 0)", "(len("+an.Norm(lk)+") > 0)")) {
+			starts = append(starts, e.From.Succs[e.Succ].Instrs[0])
+		}
+		gates.AddEdges(an.EdgesWhere(fn, an.FactIs("(len("+an.Norm(lk)+") == 0)"))...)
+	}
+	if len(starts) == 0 {
+		return false
+	}
+	for _, st := range starts {
+		if st == z {
+			return false
+		}
+		if hit, _ := an.PathTo(fn, st, an.IsInstr(z), gates); hit != nil {
+			return false
+		}
+	}
+	return true
 }
